@@ -365,6 +365,7 @@ def rule_python_side(r):
     rule_centre(r)
 
 
+from . import extra3 as _x3
 RULES = [
     ("R-C05-convention", 11, "jitter.py spells the documented convention with proper rotations", rule_convention),
     ("R-C05-matrix", 100, "kernel rotation entries = documented inverse rotation (polynomial identity)", make_c_rule("R-C05-matrix")),
@@ -373,11 +374,12 @@ RULES = [
     ("R-C05-radial", 55, "q reaches the model as |q| or through the rotation only", make_c_rule("R-C05-radial")),
     ("R-C05-1d", 70, "no orientation member in 1-D / unoriented calls", make_c_rule("R-C05-1d")),
     ("R-C05-python", 18, "angle adjacency, offsets, 1-D exclusion, projection constant", rule_python_side),
+    ("R-C05-orient-limits", 40, "orientation limits symmetric about zero in every model table", _x3.rule_c05_orient_limits),
 ]
 
 
 from . import shared
-RULES = RULES + shared.bundle('C05', ['carry', 'gate', 'restart', 'driver', 'values', 'stride', 'centre'], ['details', 'weights', 'direct_model'])
+RULES = RULES + shared.bundle('C05', ['carry', 'gate', 'restart', 'driver', 'values', 'stride', 'centre', 'loops'], ['details', 'weights', 'direct_model'])
 from .. import refs as _refs
 RULES = RULES + [_refs.ref_rule('C05')]
 
